@@ -6,8 +6,8 @@ Model: the adaptive part of `Model/Loop.lean` (tied to the real `integrate` by v
 trial bit for bit); the controller `update_step_size` is REGENERATED (`Gen.usz_*`, four paths with their traced
 branch conditions `pc0`, `pc1`).  The error estimate `err` is an ARBITRARY function, so every schedule the controller
 can produce for any SDE / tolerance / Brownian path is covered.
-Not proved here (see DESIGN §4 C14): termination needs `dt_min > 0` and an Archimedean argument (stated as
-`terminates_partial` below for the rejection phase only), and "tightening the tolerances reduces the true error" is analytic.
+Termination is proved in `C14Term.lean` (Archimedean ordered field, `dt_min > 0`, any error oracle); "tightening the tolerances
+reduces the true error" is analytic and not proved (see DESIGN §4 C14).
 -/
 import Tsv.Model.Loop
 import Tsv.Gen.Loop
